@@ -94,4 +94,50 @@ theorem C08_ignore_zero (fuel : Nat) (cases : List (S × ConstVal × EnumAction)
     evalConv p (fuel+1) fr (.enumc cases .ignore) (.basic r) (.basic (zeroBasic k)) n = .ok (.basic (zeroBasic k), n) :=
   (C08_runtime_unknown p fr fuel cases r _ n hno).2.1
 
+/-! ### which target member a source member is mapped to (builder/enum.go: enum:map, then transformers, then the same name) -/
+
+/-- an explicit `enum:map` entry wins, also when it names the member itself and a transformer maps it elsewhere -/
+theorem C08_map_wins (enumMap tmap : List (S × S)) (name x : S) (h : enumMap.lookup name = some x) :
+    chooseEnumTarget enumMap tmap name = x := by
+  unfold chooseEnumTarget; simp [h]
+
+/-- without an entry, the transformers decide -/
+theorem C08_transformer_next (enumMap tmap : List (S × S)) (name y : S) (h1 : enumMap.lookup name = none)
+    (h2 : tmap.lookup name = some y) : chooseEnumTarget enumMap tmap name = y := by
+  unfold chooseEnumTarget; simp [h1, h2]
+
+/-- without either, the member keeps its name -/
+theorem C08_same_name_last (enumMap tmap : List (S × S)) (name : S) (h1 : enumMap.lookup name = none)
+    (h2 : tmap.lookup name = none) : chooseEnumTarget enumMap tmap name = name := by
+  unfold chooseEnumTarget; simp [h1, h2]
+
+/-- a later transformer overrides an earlier one exactly for the members it maps … -/
+theorem C08_later_transformer_overrides (tmap m : List (S × S)) (name y : S) (h : m.lookup name = some y)
+    (hk : ∀ k v, (k, v) ∈ tmap → m.any (fun e => e.1 == k) = true ∨ k ≠ name) :
+    (mergeTransformer tmap m).lookup name = some y := by
+  unfold mergeTransformer
+  have hnone : (tmap.filter (fun (e : S × S) => !m.any (fun x => x.1 == e.1))).lookup name = none := by
+    induction tmap with
+    | nil => rfl
+    | cons a t ih =>
+      obtain ⟨k, v⟩ := a
+      have iht := ih (fun k' v' hm => hk k' v' (List.mem_cons_of_mem _ hm))
+      simp only [List.filter_cons]
+      cases hany : m.any (fun x => x.1 == k) with
+      | true => simpa [hany] using iht
+      | false =>
+        simp only [hany, Bool.not_false, if_true, List.lookup]
+        rcases hk k v (List.mem_cons_self ..) with h1 | h1
+        · rw [hany] at h1; cases h1
+        · have : (name == k) = false := by
+            cases hh : (name == k) with
+            | false => rfl
+            | true => exact absurd (by simpa using hh : name = k).symm h1
+          simpa [this] using iht
+  have hfun : (fun (x : S × S) => match x with | (k, _) => !m.any (fun e => e.1 == k)) = (fun (e : S × S) => !m.any (fun x => x.1 == e.1)) := by
+    funext x; obtain ⟨a, b⟩ := x; rfl
+  rw [hfun]
+  rw [List.lookup_append, hnone]
+  simpa using h
+
 end Gv.Props.C08
